@@ -127,6 +127,41 @@ fn main() {
         f.encrypt_block(GenericArray::from_mut_slice(&mut b));
         out("threefish1024", fold(&b));
     }
+    // --- length counters next to 2^32 bits (hook H2): what a host with a narrower usize must still get right -------------
+    #[cfg(cryptocorrosion_verif)]
+    if on("counters") {
+        for round in 0..scale {
+            // JH: 2^29 bytes = 2^32 bits; BLAKE-256: 2^32 bits; Skein: 2^32 bytes - reached by a jump, then crossed by update
+            // and by the padding, block-aligned and not
+            for delta in [0u64, 64, 128] {
+                for tail in [0usize, 5, 64, 67, 130] {
+                    let pre = bytes(&mut s, 70 + round as usize);
+                    let post = bytes(&mut s, tail);
+                    let mut h = Jh256::default();
+                    digest::Digest::update(&mut h, &pre);
+                    let buffered = (pre.len() % 64) as u128;
+                    h.verif_set_counter((1u128 << 29) - delta as u128 + buffered);
+                    digest::Digest::update(&mut h, &post);
+                    out("jh256@2^32bits", fold(&h.finalize()));
+                    let mut h = Jh512::default();
+                    digest::Digest::update(&mut h, &pre);
+                    h.verif_set_counter((1u128 << 29) - delta as u128 + buffered);
+                    digest::Digest::update(&mut h, &post);
+                    out("jh512@2^32bits", fold(&h.finalize()));
+                    let mut h = Blake256::default();
+                    digest::Digest::update(&mut h, &pre);
+                    h.verif_set_counter(((1u128 << 29) - delta as u128) * 8);
+                    digest::Digest::update(&mut h, &post);
+                    out("blake256@2^32bits", fold(&h.finalize()));
+                    let mut h = Skein512::<U64>::default();
+                    digest::Digest::update(&mut h, &pre);
+                    h.verif_set_counter((1u128 << 32) - delta as u128);
+                    digest::Digest::update(&mut h, &post);
+                    out("skein512@2^32bytes", fold(&h.finalize()));
+                }
+            }
+        }
+    }
     if on("jh1") {
         out("jh256", fold(&Jh256::digest(b"abc")));
     }
